@@ -67,6 +67,15 @@ def libraries(base, thorough):
     with open(os.path.join(d, "cppif.yaml"), "w") as f:
         f.write(GEN_CPPIF)
     libs.append(("gen_cppif", os.path.join(d, "cppif.yaml"), []))
+    # the wide member of the TLA+ grammar (specs/LibGenPairs.tla): every pairing of parameter rows and result rows,
+    # wrapped for C, Fortran and Python (rows the Python wrapper supports), and for Lua (its rows)
+    from rt import libgen
+    sets = libgen.cfg_sets()
+    for tag, lib in (("wide_py", libgen.wide_library(sets["PyRows"], wrap_python=True)),
+                     ("wide_lua", libgen.wide_library(sets["LuaRows"], wrap_lua=True)))[:2 if thorough else 1]:
+        wd = os.path.join(base, tag + "_src")
+        libgen.materialise(wd, lib)
+        libs.append((tag, os.path.join(wd, "sub.yaml"), []))
     names = ["tutorial", "classes", "strings", "clibrary"]
     ts = {t.name: t for t in corpus.tests()}
     if thorough:
@@ -173,11 +182,13 @@ def run(tier):
                 nd = len(decl_nodes(y0))
                 variants = []
                 for bits in itertools.product([False, True], repeat=4):
+                    if not thorough and lib[0].startswith("wide") and sum(bits) not in (0, 1, 4):
+                        continue        # quick: baseline, each option alone, all together
                     g = dict(zip(GLOBAL, bits[:3]))
                     variants.append((g, bits[3], None))
                 places = [(i, o) for i in range(nd) for o in GLOBAL[:2] + ["literalinclude"]]
                 if not thorough and lib[0] != "gen_cppif":
-                    places = rng.sample(places, min(len(places), 8))
+                    places = rng.sample(places, min(len(places), 8 if not lib[0].startswith("wide") else 12))
                 elif len(places) > 150:
                     places = rng.sample(places, 150)
                 for pl in places:
